@@ -240,4 +240,38 @@ theorem mergeAcross_cons (st : St) (ci : Nat) :
   unfold St.mergeAcross
   simp only [St.refreshBlock]
 
+/-- the offset part of the block invariant: every active constraint has in-range ends that share a
+    block, and is tight in offsets -/
+def OffsetInv (st : St) : Prop :=
+  ∀ c ∈ st.cons, c.active = true →
+    c.l < st.vars.size ∧ c.r < st.vars.size ∧
+    (st.vars[c.l]!).block = (st.vars[c.r]!).block ∧
+    (st.vars[c.r]!).offset - c.gap - (st.vars[c.l]!).offset = 0
+
+/-- **`merge` preserves the offset invariant** (any state, any constraint whose ends are in range
+    and lie in different blocks) -/
+theorem mergeAcross_offsetInv (st : St) (ci : Nat) (hinv : OffsetInv st)
+    (hl : (st.cons[ci]!).l < st.vars.size) (hr : (st.cons[ci]!).r < st.vars.size)
+    (hne : (st.vars[(st.cons[ci]!).l]!).block ≠ (st.vars[(st.cons[ci]!).r]!).block) :
+    OffsetInv (st.mergeAcross ci).1 := by
+  intro c hc hact
+  have hsz : (st.mergeAcross ci).1.vars.size = st.vars.size := by
+    rw [mergeAcross_vars]
+    simp only
+    split <;> exact shiftVars_size _ _ _ _
+  rw [mergeAcross_cons, Array.set!_eq_setIfInBounds] at hc
+  rcases Array.mem_or_eq_of_mem_setIfInBounds hc with hc | hc
+  · -- an old constraint: it was active before, rigid motion keeps it tight
+    obtain ⟨h1, h2, h3, h4⟩ := hinv c hc hact
+    have := mergeAcross_preserves st ci c.l c.r h1 h2 h3
+    simp only at this
+    refine ⟨hsz ▸ h1, hsz ▸ h2, this.2, ?_⟩
+    have h5 := this.1
+    linarith
+  · -- the merged constraint itself
+    subst hc
+    have := mergeAcross_tight st ci hl hr hne
+    simp only at this
+    exact ⟨hsz ▸ hl, hsz ▸ hr, this.2, this.1⟩
+
 end AdaptaVerif.Lemmas.VpscModel
